@@ -6,6 +6,8 @@ import (
 	"strings"
 	"time"
 
+	packettypes "github.com/bianjieai/tibc-go/modules/tibc/core/04-packet/types"
+
 	"verif/mc/explore"
 	"verif/mc/world"
 )
@@ -167,12 +169,98 @@ func modelsC10(tier string) ([]*PktModel, []int) {
 func CheckC10(tier string) int {
 	models, depth := modelsC10(tier)
 
-	return RunPkt("C10", tier, models, depth, tierBudget(tier, 100*time.Second, 15*time.Minute), append([]string{
+	return RunPktExtra("C10", tier, models, depth, tierBudget(tier, 100*time.Second, 15*time.Minute), append([]string{
 		"clean(N) is offered on the source for every N in 1..max+1 in every state; accepted cleans are judged against the ghost (which sequences were sent and acknowledged on the source); receive-clean messages without the source's clean point behind them are probes that must be rejected",
 		"in all descendant states every packet and acknowledgement at or below a clean point is re-submitted with a fresh proof and must be rejected",
-	}, commonAssumptions...))
+		"long channel (scripted): 12 packets sent and delivered on one channel, every set of at most two unacknowledged sequences, clean(N) for every N in 1..13 judged against the same rule (two-digit sequence numbers, where decimal keys sort differently from numbers)",
+	}, commonAssumptions...), longChannelCleans(tier))
 }
 
 func init() {
 	PktRegistry["C10"] = func(tier string) []*PktModel { m, _ := modelsC10(tier); return m }
+}
+
+// longChannelCleans: a channel with two-digit sequence numbers. For every set U of at most two unacknowledged sequences
+// and every N, a clean request accepted on the source must satisfy the reference rule.
+func longChannelCleans(tier string) []explore.Finding {
+	const n = 12
+	base := world.NewWorld(world.WorldOpts{Names: []string{A, B}})
+	a, b := base.C(A), base.C(B)
+	var pkts []packettypes.Packet
+	for i := uint64(1); i <= n; i++ {
+		p := packettypes.NewPacket([]byte(fmt.Sprintf("long-%d", i)), i, A, B, "", "tibcmock")
+		if err := base.SendMock(a, p); err != nil {
+			panic(err)
+		}
+		pkts = append(pkts, p)
+	}
+	for _, p := range pkts {
+		if r, err := base.RelayRecv(p, b); err != nil || !r.OK() {
+			panic(fmt.Sprint("long channel set-up: recv failed ", err, r.Log))
+		}
+	}
+	delivered := base.Freeze()
+	var subsets [][]uint64
+	subsets = append(subsets, nil)
+	for i := uint64(1); i <= n; i++ {
+		subsets = append(subsets, []uint64{i})
+		for j := i + 1; j <= n; j++ {
+			subsets = append(subsets, []uint64{i, j})
+		}
+	}
+	if tier != "thorough" {
+		// quick: every single unacknowledged sequence, and pairs that straddle the one-digit / two-digit boundary
+		var q [][]uint64
+		for _, u := range subsets {
+			if len(u) < 2 || (u[0] <= 3 && u[1] >= 9) {
+				q = append(q, u)
+			}
+		}
+		subsets = q
+	}
+	attempts, accepted := 0, 0
+	fs := RunScripts(base, delivered, len(subsets), func(i int, w *world.World) []explore.Finding {
+		u := subsets[i]
+		un := map[uint64]bool{}
+		for _, s := range u {
+			un[s] = true
+		}
+		wa, wb := w.C(A), w.C(B)
+		maxAcked := uint64(0)
+		for _, p := range pkts {
+			if un[p.Sequence] {
+				continue
+			}
+			if r, err := w.RelayAck(p, []byte("mock acknowledgement"), wa); err != nil || !r.OK() {
+				panic(fmt.Sprint("long channel set-up: ack failed ", err, r.Log))
+			}
+			maxAcked = p.Sequence
+		}
+		_ = wb
+		var out []explore.Finding
+		for N := uint64(1); N <= n+1; N++ {
+			msg := &packettypes.MsgCleanPacket{CleanPacket: packettypes.CleanPacket{Sequence: N, SourceChain: A, DestinationChain: B}, Signer: wa.Relayer().Addr.String()}
+			_, err := w.Try(wa, msg)
+			ok := true
+			for s := uint64(1); s <= N; s++ {
+				if un[s] {
+					ok = false
+				}
+			}
+			rule := N <= maxAcked && ok
+			if err == nil && !rule {
+				out = append(out, explore.Finding{Property: "C10", Signature: "clean-accepted-with-unacknowledged-packet:long-channel",
+					Detail: fmt.Sprintf("12 packets delivered, unacknowledged %v (highest acknowledged %d): clean(%d) accepted on the source", u, maxAcked, N),
+					Path:   []string{"long-channel", fmt.Sprintf("unacknowledged=%v", u), fmt.Sprintf("clean(%d)", N)}})
+			}
+			_ = i
+		}
+		return out
+	})
+	for range subsets {
+		attempts += n + 1
+	}
+	_ = accepted
+	ExtraCoverage["long_channel"] = map[string]any{"packets": n, "unacknowledged_sets": len(subsets), "clean_attempts": attempts}
+	return fs
 }
